@@ -1447,6 +1447,15 @@ where
         )));
     }
 
+    // The native verifier only accepts `1 <= log_arity` (`checked_log_arity`): an arity-1
+    // "fold" consumes no index bit and changes nothing, so a phase with `log_arity = 0` must be
+    // rejected rather than silently skipped.
+    if let Some(phase) = log_arities.iter().position(|&la| la == 0) {
+        return Err(VerificationError::InvalidProofShape(format!(
+            "phase {phase}: log_arity must be at least 1"
+        )));
+    }
+
     if num_queries != index_bits_per_query.len() {
         return Err(VerificationError::InvalidProofShape(format!(
             "index_bits_per_query length must equal number of query proofs: expected {}, got {}",
